@@ -5,7 +5,7 @@
 //! usage: facts <file>     programs separated by lines consisting of "----"
 
 use riscv_analysis::analysis::{AvailableValue, MemoryLocation};
-use riscv_analysis::cfg::AvailableValueMap;
+use riscv_analysis::cfg::{AvailableValueMap, RegisterSet};
 use riscv_analysis::parser::{HasIdentity, InstructionProperties, ParserNode, RVStringParser, Register};
 use riscv_analysis::passes::{DiagnosticManager, Manager};
 use rva_verif::ob_text::{node_label, node_meaning};
@@ -55,7 +55,6 @@ fn mem_json(m: &AvailableValueMap<MemoryLocation>) -> String {
                 MemoryLocation::StackOffset(o) => format!("{{\"t\":\"Stack\",\"o\":{o}}}"),
                 MemoryLocation::CsrRegister(c) => format!("{{\"t\":\"Csr\",\"n\":{}}}", c.value()),
                 MemoryLocation::CsrRegisterValueOffset(c, o) => format!("{{\"t\":\"CsrMem\",\"n\":{},\"o\":{o}}}", c.value()),
-                _ => "{\"t\":\"Other\"}".to_string(),
             };
             format!("[{loc},{}]", value_json(v))
         })
@@ -103,8 +102,20 @@ fn main() {
                 prevs.sort();
                 let live_in: Vec<u8> = n.live_in().iter().map(Register::to_num).collect();
                 let live_out: Vec<u8> = n.live_out().iter().map(Register::to_num).collect();
+                // interprocedural coupling (C02): the function a call site resolves to with its inferred
+                // argument / return registers, and where a function's exit is
+                let regs = |s: RegisterSet| -> Vec<u8> { s.iter().map(Register::to_num).collect() };
+                let (callee, call_args) = match n.calls_to_from_cfg(&cfg) {
+                    Some((f, _)) if pn.calls_to().is_some() => (idx(f.entry().id()), regs(f.arguments())),
+                    _ => (-1, vec![]),
+                };
+                let (fexit, fargs, frets) = match n.is_function_entry_with_func() {
+                    Some(f) => (idx(f.exit().id()), regs(f.arguments()), regs(f.returns())),
+                    None => (-1, vec![], vec![]),
+                };
+                let is_ret = pn.is_return();
                 out.push(format!(
-                    "{{\"kind\":\"{kind}\",\"text\":\"{}\",\"inst\":{inst},\"label\":{label},\"call\":{},\"nexts\":{nexts:?},\"prevs\":{prevs:?},\"live_in\":{live_in:?},\"live_out\":{live_out:?},\"rin\":{},\"rout\":{},\"min\":{},\"mout\":{}}}",
+                    "{{\"kind\":\"{kind}\",\"callee\":{callee},\"call_args\":{call_args:?},\"fexit\":{fexit},\"fargs\":{fargs:?},\"frets\":{frets:?},\"is_ret\":{is_ret},\"text\":\"{}\",\"inst\":{inst},\"label\":{label},\"call\":{},\"nexts\":{nexts:?},\"prevs\":{prevs:?},\"live_in\":{live_in:?},\"live_out\":{live_out:?},\"rin\":{},\"rout\":{},\"min\":{},\"mout\":{}}}",
                     pn.to_string().replace('\\', "\\\\").replace('"', "'"),
                     pn.calls_to().is_some(),
                     regs_json(&n.reg_values_in()),
